@@ -23,11 +23,12 @@ func genC12(e *emitter, tier string, seed int64) {
 	rng := rand.New(rand.NewSource(seed))
 	obs := "\np(get_key(message), get_key(a), get_key(b), get_key(c), get_key(pl_msg), get_key(out), get_key(k))\n"
 	mkpt := func(msg string) pointSpec {
-		return pointSpec{Meas: "m", Time: 1600000000000000000, Fields: []fieldSpec{{"message", "str", msg}, {"n", "int", "12345"}, {"fl", "float", "4612811918334230528"}},
+		return pointSpec{Meas: "m", Time: 1600000000000000000, Fields: []fieldSpec{{"message", "str", msg}, {"n", "int", "12345"}, {"fl", "float", "4612811918334230528"}, {"nl", "nil", ""}},
 			Tags: [][2]string{{"tg", "127.0.0.1 GET"}}}
 	}
 	// ---- grok: capture types, trim flag, subjects, pattern scopes ----
-	subjects := []string{"_", "message", "tg", "n", "fl", "nosuch", "v", `"message"`}
+	// (nl: a field holding nil, nv: a variable holding nil - present subjects whose string form is empty)
+	subjects := []string{"_", "message", "tg", "n", "fl", "nosuch", "v", `"message"`, "nl", "nv"}
 	patterns := []string{
 		`%{IP:a} %{WORD:b}`, `%{NUMBER:a:int} %{NUMBER:b:float}`, `%{WORD:a:str} %{WORD:b:bool}`, `%{MYPAT:a}`, `%{INNER:a} %{WORD:b}`,
 		`(?P<a>\\d+)`, `%{NOSUCHPATTERN:a}`, `%{NUMBER:a:int}`, `\\s*%{WORD:a}\\s*`, `%{DATA:a} %{GREEDYDATA:b}`, `%{NUMBER:message}`,
@@ -40,7 +41,7 @@ func genC12(e *emitter, tier string, seed int64) {
 					if tier != "thorough" && rng.Intn(4) != 0 {
 						continue
 					}
-					src := fmt.Sprintf("v = \" 7 8.5 \"\nadd_pattern(\"MYPAT\", \"\\\\w+\")\nr = grok(%s, \"%s\"%s)\np(r)", sub, pat, trim) + obs
+					src := fmt.Sprintf("v = \" 7 8.5 \"\nnv = nil\nadd_pattern(\"MYPAT\", \"\\\\w+\")\nr = grok(%s, \"%s\"%s)\np(r)", sub, pat, trim) + obs
 					emitSimple(e, src, mkpt(msg), "grok", fmt.Sprintf("%q | grok(%s, %s%s)", msg, sub, pat, trim))
 				}
 			}
@@ -85,7 +86,7 @@ func genC12(e *emitter, tier string, seed int64) {
 			}
 		}
 	}
-	for _, call := range []string{"default_time(n)", "default_time(nosuch)", "default_time(tg)", "default_time(fl)", "v = \"2021-03-15T00:08:10Z\"\ndefault_time(v)"} {
+	for _, call := range []string{"default_time(nl)", "default_time(nl, \"+8\")", "nv = nil\ndefault_time(nv)", "j = load_json(\"{\\\"t\\\": null}\")\nadd_key(jt, j[\"t\"])\ndefault_time(jt)", "default_time(n)", "default_time(nosuch)", "default_time(tg)", "default_time(fl)", "v = \"2021-03-15T00:08:10Z\"\ndefault_time(v)"} {
 		emitSimple(e, call+obs, mkpt("x"), "default_time", call)
 	}
 	// ---- datetime ----
@@ -101,7 +102,11 @@ func genC12(e *emitter, tier string, seed int64) {
 	}
 	// ---- xml ----
 	docs := []string{`<a><b id="1">x</b><b id="2">y<c>z</c></b></a>`, `<a>`, ``, `plain`, `<r><v>1</v></r>`}
-	xps := []string{`/a/b[@id='2']`, `//c`, `/a/b/@id`, `//nosuch`, `///`, `/r/v`, `count(//b)`}
+	// (XPath functions applied to arguments of the wrong kind or number: the xpath package reports some of
+	// these only while evaluating — as a failed query, not as a crash)
+	xps := []string{`/a/b[@id='2']`, `//c`, `/a/b/@id`, `//nosuch`, `///`, `/r/v`, `count(//b)`,
+		`//b[starts-with(1,2)]`, `//b[substring(.,0)]`, `//b[contains(., 1)]`, `concat(1)`, `//b[position()=last()]`, `string-length(1,2)`, `//b[translate(.,1,2)]`,
+		`//*[name(1)]`, `sum(//b)`, `//b[ends-with(.,1)]`, `boolean()`, `normalize-space(1, 2)`, `//b[substring-before(1)]`, `//b[number(.) > 1 div 0]`, `//b[last() - 1][1]`, `/a/b[0]`, `//b[-1]`, `(`, `//b[`}
 	for _, d := range docs {
 		for _, xp := range xps {
 			for _, dst := range []string{"out", `"out"`, "out.x"} {
